@@ -753,7 +753,7 @@ func (s *Server) handleRequest(req *dhcpv4.DHCPv4) (*dhcpv4.DHCPv4, error) {
 		if s.loader.HasCircuitIDSubscriberSupport() {
 			assignment := &ebpf.PoolAssignment{
 				PoolID:      lease.PoolID,
-				AllocatedIP: ebpf.IPToUint32(lease.IP),
+				AllocatedIP: ebpf.IPToMapUint32(lease.IP),
 				VlanID:      pool.VlanID,
 				ClientClass: uint8(pool.ClientClass),
 				LeaseExpiry: uint64(lease.ExpiresAt.Unix()),
@@ -1093,7 +1093,7 @@ func (s *Server) updateFastPathCache(mac net.HardwareAddr, lease *Lease, pool *P
 
 	assignment := &ebpf.PoolAssignment{
 		PoolID:      lease.PoolID,
-		AllocatedIP: ebpf.IPToUint32(lease.IP),
+		AllocatedIP: ebpf.IPToMapUint32(lease.IP),
 		VlanID:      pool.VlanID,
 		ClientClass: uint8(pool.ClientClass),
 		LeaseExpiry: uint64(lease.ExpiresAt.Unix()),
